@@ -92,7 +92,7 @@ class Ctx:
 
     # ------------------------------------------------------------------ TLC
     def _tlc(self, sdir, module, cfg, args, timeout, jvm=None, tag="tlc"):
-        meta = os.path.join(self.work, "meta_%s_%d" % (tag, int(time.time() * 1000) % 10**9))
+        meta = os.path.join(self.work, "meta_%s_%s" % (tag, __import__("uuid").uuid4().hex[:12]))   # unique also across threads of one check
         cmd = ["java", "-XX:+UseParallelGC", "-Xss64m"]
         if jvm:
             cmd += jvm
@@ -317,7 +317,7 @@ class Ctx:
                extra_args=None):
         """Run harness test.  Protocol: env VERIF_IN (input NDJSON), VERIF_OUT (output NDJSON),
         VERIF_SEED, VERIF_TIER, VERIF_MODE.  Returns (records list, stdout, rc)."""
-        outp = os.path.join(self.work, "out_%s_%d.ndjson" % (test, int(time.time() * 1000) % 10**9))
+        outp = os.path.join(self.work, "out_%s_%s.ndjson" % (test, __import__("uuid").uuid4().hex[:12]))
         e = go_env()
         e.update(VERIF_OUT=outp, VERIF_SEED=str(self.seed), VERIF_TIER=self.tier, VERIF_MODE=mode,
                  VERIF_WORK=self.work, VERIF_REPO=REPO)
